@@ -489,6 +489,13 @@ func C16(p *core.Program, r *core.Report) {
 	r.Check(okKey, "single-instance/"+fname(rc)+"/key", "the registry key is the adapter's Address() for lookup and store", p.Pos(rc.Pos()), "", "a registry access does not use conv.Address()")
 
 	checkRegistryKeys(p, r)
+	nWait := 0
+	for _, rel := range []string{claPkg, mtcpPkg, bbcPkg, "pkg/cla/tcpclv4", utilsPkg, "pkg/cla/tcpclv4/internal/stages", agentPkg, routingPkg, discPkg} {
+		nWait += checkNoWaitUnderSignallersLock(p, r, rel)
+	}
+	r.Analysed["waits_under_a_lock"] = nWait
+	r.Min("channel waits made while a mutex is held (all adapter packages)", 1)
+	r.Count("channel waits made while a mutex is held (all adapter packages)", nWait)
 
 	// unregisterConvergence: deactivate precedes Delete, same instance
 	uc := p.Func(claPkg, "Manager", "unregisterConvergence")
@@ -853,4 +860,118 @@ func checkRegistryKeys(p *core.Program, r *core.Report) {
 	}
 	r.Min("adapter registry accesses", 5)
 	r.Count("adapter registry accesses", n)
+}
+
+// checkNoWaitUnderSignallersLock: a function that blocks on a channel of one of the package's structs (a bare receive,
+// not a select) while it holds a mutex deadlocks if the goroutine that signals this channel (closes it / sends on it)
+// may have to take the same mutex first. For every such wait, the mutexes held (must-lockset; a deferred Unlock keeps
+// the lock to the exit) are intersected with the mutexes acquired anywhere in the signalling function and what it
+// calls (static callees within the repository, bounded depth).
+func checkNoWaitUnderSignallersLock(p *core.Program, r *core.Report, pkgRel string) int {
+	pkg := p.Pkg(pkgRel)
+	type chanField struct {
+		owner *types.Named
+		field string
+	}
+	signallers := map[chanField][]*ssa.Function{}
+	var fns []*ssa.Function
+	for _, fn := range p.RepoFuncs() {
+		if fn.Pkg != pkg || fn.Blocks == nil {
+			continue
+		}
+		fns = append(fns, fn)
+		core.EachInstr(fn, func(in ssa.Instruction) {
+			var ch ssa.Value
+			switch x := in.(type) {
+			case *ssa.Send:
+				ch = x.Chan
+			case *ssa.Call:
+				if b, ok := x.Common().Value.(*ssa.Builtin); ok && b.Name() == "close" {
+					ch = x.Common().Args[0]
+				}
+			}
+			if ch == nil {
+				return
+			}
+			if ld, ok := core.Strip(ch).(*ssa.UnOp); ok {
+				if o, f, ok := core.FieldOwner(ld.X); ok {
+					signallers[chanField{o, f}] = append(signallers[chanField{o, f}], fn)
+				}
+			}
+		})
+	}
+	acquired := func(root *ssa.Function) map[string]bool {
+		out := map[string]bool{}
+		seen := map[*ssa.Function]bool{}
+		var walk func(f *ssa.Function, depth int)
+		walk = func(f *ssa.Function, depth int) {
+			if f == nil || seen[f] || depth > 6 || f.Blocks == nil || !core.IsRepo(f) {
+				return
+			}
+			seen[f] = true
+			core.EachInstr(f, func(in ssa.Instruction) {
+				c, ok := in.(ssa.CallInstruction)
+				if !ok {
+					return
+				}
+				if _, isGo := in.(*ssa.Go); isGo {
+					return
+				}
+				switch core.CalleeName(c) {
+				case "sync.Mutex.Lock", "sync.RWMutex.Lock", "sync.RWMutex.RLock":
+					if k := core.MutexKey(core.CallRecv(c)); k != "" {
+						out[k] = true
+					}
+					return
+				}
+				if callee := c.Common().StaticCallee(); callee != nil {
+					walk(callee, depth+1)
+				}
+				for _, a := range c.Common().Args {
+					if mc, ok := a.(*ssa.MakeClosure); ok {
+						walk(mc.Fn.(*ssa.Function), depth+1)
+					}
+				}
+			})
+		}
+		walk(root, 0)
+		return out
+	}
+	n := 0
+	for _, fn := range fns {
+		var ls *core.LockSets
+		core.EachInstr(fn, func(in ssa.Instruction) {
+			rc, ok := in.(*ssa.UnOp)
+			if !ok || rc.Op != token.ARROW {
+				return
+			}
+			ld, ok := core.Strip(rc.X).(*ssa.UnOp)
+			if !ok {
+				return
+			}
+			o, f, ok := core.FieldOwner(ld.X)
+			if !ok {
+				return
+			}
+			if ls == nil {
+				ls = core.ComputeLockSets(fn)
+			}
+			held := ls.At[in]
+			if len(held) == 0 {
+				return
+			}
+			n++
+			var clash []string
+			for _, g := range signallers[chanField{o, f}] {
+				acq := acquired(topFunc(g))
+				for _, e := range held {
+					if acq[e.Mutex] {
+						clash = append(clash, e.Mutex+" (taken in "+fname(topFunc(g))+")")
+					}
+				}
+			}
+			r.Check(len(clash) == 0, "wait-under-lock/"+fname(fn)+"/"+o.Obj().Name()+"."+f, "a function does not wait for a channel while holding a mutex that the goroutine signalling this channel may need before it signals", p.Pos(in.Pos()), "held: "+ls.HeldNames(in), "waiting for "+o.Obj().Name()+"."+f+" while holding "+strings.Join(clash, ", ")+": the signalling goroutine blocks on that mutex and never signals")
+		})
+	}
+	return n
 }
